@@ -55,6 +55,9 @@ func bDiffIter(newT, oldT *Mast, stopAfter int, failAt int) (out []bDiff, calls 
 		if failAt > 0 && calls == failAt {
 			return true, errInjected
 		}
+		if failAt < 0 && calls == -failAt {
+			return false, errInjected // "stop" and "failed" at once: the failure must still surface
+		}
 		d := bDiff{K: key.(int)}
 		switch {
 		case added && !removed:
@@ -157,6 +160,10 @@ func bCheckDiff(t *testing.T, desc string, newT, oldT *Mast, newM, oldM map[int]
 		_, calls, err = bDiffIter(newT, oldT, 0, 2)
 		if err == nil || !errors.Is(err, errInjected) || calls != 2 {
 			bViolation(t, "C06", "callback-error", "%s\nold %s new %s\ncallback failed at its 2nd call: DiffIter returned %v after %d calls", desc, bModelString(oldM), bModelString(newM), err, calls)
+		}
+		_, calls, err = bDiffIter(newT, oldT, 0, -2)
+		if err == nil || !errors.Is(err, errInjected) || calls != 2 {
+			bViolation(t, "C06", "callback-error-with-stop", "%s\nold %s new %s\ncallback returned (false, error) at its 2nd call: DiffIter returned %v after %d calls", desc, bModelString(oldM), bModelString(newM), err, calls)
 		}
 	}
 }
